@@ -16,8 +16,14 @@ import (
 
 type flat map[string]string
 
+// dumpUnexported makes dumpValue walk unexported fields too (C23); func, chan
+// and sync fields are always skipped.
+var dumpUnexported = false
+
 func dumpValue(path string, v reflect.Value, out flat) {
 	switch v.Kind() {
+	case reflect.Func, reflect.Chan, reflect.UnsafePointer:
+		return
 	case reflect.Ptr, reflect.Interface:
 		if v.IsNil() {
 			out[path] = "nil"
@@ -28,7 +34,10 @@ func dumpValue(path string, v reflect.Value, out flat) {
 		t := v.Type()
 		for i := 0; i < v.NumField(); i++ {
 			f := t.Field(i)
-			if f.PkgPath != "" { // unexported (caches)
+			if f.PkgPath != "" && !dumpUnexported { // unexported (caches)
+				continue
+			}
+			if f.Type.PkgPath() == "sync" || (f.Type.Kind() == reflect.Ptr && f.Type.Elem().PkgPath() == "sync") {
 				continue
 			}
 			dumpValue(path+"."+f.Name, v.Field(i), out)
